@@ -113,6 +113,16 @@ enum Ev {
     K { n: usize },
     /// crash n (memory lost) and restart it on its files
     X { n: usize },
+    /// local transaction at n during dissemination (C06): acknowledged writes must survive
+    W { n: usize, tx: LTx },
+}
+
+#[derive(Clone, Copy, Serialize, Deserialize, Debug, PartialEq, Eq, Hash)]
+enum LTx {
+    /// upsert of the node's own key
+    Ins,
+    /// two statements, the second violates NOT NULL: nothing may remain
+    Fail,
 }
 
 // ------------------------------------------------------------------------------------------
@@ -135,6 +145,13 @@ struct Cfg {
     receivers: Vec<usize>,
     server_oracle: bool,
     twin_off: bool,
+    /// C06: local writes during dissemination and crash forks (WAL prefixes restarted through the
+    /// real start_with_config) after every step
+    crash_forks: bool,
+    torn_cuts: bool,
+    max_local_writes: usize,
+    /// index of the script family (keeps per-state memo tables of parallel families apart)
+    family: u64,
 }
 
 struct World {
@@ -191,7 +208,7 @@ impl<'a> Exec<'a> {
         let mut nodes = vec![];
         for i in 0..cfg.nodes {
             let p = w.tpls[i].instantiate(&scratch.path().join(format!("n{i}")));
-            nodes.push(RtNode::open(&p, NodeOpts::default()));
+            nodes.push(RtNode::open(&p, NodeOpts { no_autocheckpoint: cfg.crash_forks, ..NodeOpts::default() }));
         }
         let mut ex = Exec {
             w,
@@ -209,25 +226,8 @@ impl<'a> Exec<'a> {
                 Step::W(wr, tx) => {
                     occ += 1;
                     let stmts = tx_sql(*wr, occ, *tx);
-                    let (status, body, bc) = ex.nodes[*wr].run(async |n| n.write(stmts, None).await);
-                    if status != 200 {
-                        machinery_error(&format!("script write failed: {status} {body:?}"));
-                    }
-                    if let Some(v) = body.version {
-                        let actor = ex.nodes[*wr].node().actor_id();
-                        let mut changes = vec![];
-                        let mut last_seq = 0;
-                        let mut ts = None;
-                        for c in &bc {
-                            if let Changeset::Full { changes: ch, last_seq: l, ts: t, version, .. } = &c.changeset {
-                                assert_eq!(version.0, v);
-                                changes.extend(ch.iter().cloned());
-                                last_seq = l.0;
-                                ts = Some(*t);
-                            }
-                        }
-                        ex.models[*wr].on_local(actor, v);
-                        ex.ledger.push(LVer { origin: *wr, actor, version: v, changes, last_seq, ts: ts.unwrap() });
+                    if !ex.local_write(*wr, stmts) {
+                        machinery_error("script write failed");
                     }
                 }
                 Step::G(n, x) => {
@@ -241,6 +241,31 @@ impl<'a> Exec<'a> {
             }
         }
         ex
+    }
+
+    /// A local transaction through the real API handler; an acknowledged version goes to the ledger.
+    fn local_write(&mut self, wr: usize, stmts: Vec<Statement>) -> bool {
+        let (status, body, bc) = self.nodes[wr].run(async |n| n.write(stmts, None).await);
+        if status != 200 {
+            return false;
+        }
+        if let Some(v) = body.version {
+            let actor = self.nodes[wr].node().actor_id();
+            let mut changes = vec![];
+            let mut last_seq = 0;
+            let mut ts = None;
+            for c in &bc {
+                if let Changeset::Full { changes: ch, last_seq: l, ts: t, version, .. } = &c.changeset {
+                    assert_eq!(version.0, v);
+                    changes.extend(ch.iter().cloned());
+                    last_seq = l.0;
+                    ts = Some(*t);
+                }
+            }
+            self.models[wr].on_local(actor, v);
+            self.ledger.push(LVer { origin: wr, actor, version: v, changes, last_seq, ts: ts.unwrap() });
+        }
+        true
     }
 
     fn deliver(&mut self, n: usize, batch: Vec<ChangeV1>) -> bool {
@@ -337,6 +362,29 @@ impl<'a> Exec<'a> {
             }
             Ev::X { n } => {
                 self.nodes[*n].restart();
+            }
+            Ev::W { n, tx } => {
+                let occ = self.ledger.len() + 100;
+                let key = 10 + *n;
+                let s = |q: String| Statement::Simple(q);
+                let stmts = match tx {
+                    LTx::Ins => vec![s(format!(
+                        "INSERT INTO t (id,a,b) VALUES ({key},'l{occ}a','l{occ}b') ON CONFLICT (id) DO UPDATE SET a=excluded.a, b=excluded.b"
+                    ))],
+                    LTx::Fail => vec![
+                        s(format!("INSERT INTO t (id,a,b) VALUES ({},'f{occ}','f{occ}')", key + 10)),
+                        s("INSERT INTO t (id,a,b) VALUES (1, NULL, 'x')".to_string()),
+                    ],
+                };
+                let before = self.ledger.len();
+                let ok = self.local_write(*n, stmts);
+                match tx {
+                    LTx::Ins if !ok => self.viol.push(("ALL:local-write-failed".into(), json!({"node": n}))),
+                    LTx::Fail if ok || self.ledger.len() != before => {
+                        self.viol.push(("C06:failed-transaction-acknowledged".into(), json!({"node": n})))
+                    }
+                    _ => {}
+                }
             }
         }
     }
@@ -748,6 +796,301 @@ impl<'a> Exec<'a> {
         }
     }
 
+    fn commit_count(&self, n: usize) -> usize {
+        match std::fs::read(wal_path(&self.nodes[n].db_path)) {
+            Ok(w) => wal_commit_offsets(&w).len(),
+            Err(_) => 0,
+        }
+    }
+
+    fn pre(&self) -> Pre {
+        Pre {
+            models: self.models.clone(),
+            ledger_len: self.ledger.len(),
+            commits: (0..self.nodes.len()).map(|n| self.commit_count(n)).collect(),
+        }
+    }
+
+    /// C06. Every durable state the last step went through on the node it ran on: the WAL cut after
+    /// each commit frame the step appended, and inside its first transaction. Each image is started
+    /// with the real `start_with_config`, left to settle, judged, then synced from the other nodes
+    /// and compared with the reference merge.
+    fn crash_forks(&mut self, w: &World, cfg: &Cfg, pre: &Pre, ev: &Ev, refcache: &mut RefCache, final_too: bool) {
+        let n = match ev {
+            Ev::D { n, .. } | Ev::B { n, .. } | Ev::S { n, .. } | Ev::A { n } | Ev::K { n } | Ev::W { n, .. } => *n,
+            Ev::X { .. } => return,
+        };
+        let db_path = self.nodes[n].db_path.clone();
+        let wal = std::fs::read(wal_path(&db_path)).unwrap_or_default();
+        let offs = wal_commit_offsets(&wal);
+        let before = pre.commits[n];
+        if offs.len() < before {
+            machinery_error("crash forks: the write-ahead log was checkpointed during the step");
+        }
+        let new: Vec<usize> = offs[before..].to_vec();
+        if new.is_empty() {
+            return;
+        }
+        let start_off = if before == 0 { 32 } else { offs[before - 1] };
+        let fl = wal_frame_len(&wal);
+        // cuts inside the step's first transaction recover to the image the previous step's last
+        // commit left (already judged there); they are taken in the thorough tier only, as a check
+        // that a torn tail is ignored
+        let mut cuts: Vec<(usize, Cut)> = vec![];
+        if cfg.torn_cuts && final_too {
+            cuts.push((start_off + fl / 2, Cut::Before));
+            if new[0] - start_off > fl {
+                cuts.push((new[0] - fl, Cut::Before));
+            }
+        }
+        for (i, o) in new.iter().enumerate() {
+            if i + 1 == new.len() {
+                if final_too {
+                    cuts.push((*o, Cut::Final));
+                }
+            } else {
+                cuts.push((*o, Cut::Inner));
+            }
+        }
+        let own = self.nodes[n].node().actor_id();
+        for (cut, kind) in cuts {
+            FORKS[kind as usize].fetch_add(1, std::sync::atomic::Ordering::Relaxed);
+            let dir = self._scratch.path().join(format!("fork_{n}_{cut}"));
+            let img = crash_image(&db_path, &wal, cut, &dir);
+            let t_f = Instant::now();
+            let timing = std::env::var("VH_TIMING").is_ok();
+            let mut full = match FullNode::start(&img) {
+                Ok(f) => f,
+                Err(e) => {
+                    self.viol.push(("C06:restart-failed".into(), json!({"node": n, "cut": format!("{kind:?}"), "err": e})));
+                    continue;
+                }
+            };
+            // which knowledge is durable at this cut
+            let model = if kind == Cut::Before { pre.models[n].clone() } else { self.models[n].clone() };
+            let exact_model = if kind == Cut::Final { self.models[n].clone() } else { pre.models[n].clone() };
+            let acked: Vec<LVer> = self.ledger[..if kind == Cut::Final { self.ledger.len() } else { pre.ledger_len }].to_vec();
+            let tag = format!("after-crash cut={kind:?}");
+
+            // (a) versions fully buffered at the cut must get applied by the restarted node itself
+            let expect: Vec<(ActorId, u64)> = exact_model
+                .actors
+                .iter()
+                .flat_map(|(a, m)| m.recv.keys().filter(|v| m.covered(**v) && !m.held.contains(*v) && self.models[n].actors.get(a).map(|x| x.covered(**v) || x.held.contains(*v)).unwrap_or(false)).map(|v| (*a, *v)).collect::<Vec<_>>())
+                .collect();
+            let exp2 = expect.clone();
+            let unapplied: Vec<(ActorId, u64)> = full.run(async |nd| {
+                let start = Instant::now();
+                loop {
+                    let st = nd.sync_state().await;
+                    let mut left = vec![];
+                    for (a, v) in &exp2 {
+                        let head = st.heads.get(a).map(|h| h.0).unwrap_or(0);
+                        let in_need = st.need.get(a).map(|rs| rs.iter().any(|r| r.start().0 <= *v && *v <= r.end().0)).unwrap_or(false);
+                        let in_partial = st.partial_need.get(a).map(|p| p.contains_key(&CrsqlDbVersion(*v))).unwrap_or(false);
+                        let (aa, vv) = (*a, *v);
+                        let buffered: i64 = nd
+                            .read(move |c| c.query_row("SELECT count(*) FROM __corro_buffered_changes WHERE site_id = ? AND db_version = ?", rusqlite::params![aa, vv], |r| r.get(0)).unwrap())
+                            .await;
+                        if head < *v || in_need || in_partial || buffered > 0 {
+                            left.push((*a, *v));
+                        }
+                    }
+                    if left.is_empty() || start.elapsed() > Duration::from_secs(5) {
+                        nd.quiesce().await;
+                        return left;
+                    }
+                    tokio::time::sleep(Duration::from_millis(2)).await;
+                }
+            });
+            for (a, v) in unapplied {
+                self.viol.push(("C06:fully-buffered-version-not-applied-after-restart".into(), json!({"node": n, "actor": a.to_string(), "version": v, "cut": format!("{kind:?}")})));
+            }
+            if expect.is_empty() {
+                // nothing to wait for: give the start-up triggers a moment, they must not apply anything
+                full.run(async |nd| {
+                    tokio::time::sleep(Duration::from_millis(15)).await;
+                    nd.quiesce().await;
+                });
+            }
+            if timing {
+                eprintln!("fork {kind:?}: started+settled {:?} expect={}", t_f.elapsed(), expect.len());
+            }
+            // (b) the rebuilt sync state is sound and not narrower than the truth
+            let tag2 = tag.clone();
+            let m2 = model.clone();
+            let v = full.run(async |nd| {
+                let mut pc = vec![];
+                check_sync_state_with(nd, &m2, &tag2, &mut pc).await
+            });
+            for (k, d) in v {
+                let sound = k.ends_with("partial-version-advertised-as-held") || k.ends_with("unreceived-version-advertised-as-held");
+                let narrower = k.ends_with("partial-missing-ranges-wrong") && {
+                    let adv: BTreeSet<u64> = serde_json::from_value(d["d"]["advertised_missing"].clone()).unwrap_or_default();
+                    let truly: BTreeSet<u64> = serde_json::from_value(d["d"]["truly_missing"].clone()).unwrap_or_default();
+                    !truly.is_subset(&adv)
+                };
+                if sound || narrower {
+                    self.viol.push((k.replace("C02:", "C06:rebuilt-state-"), json!({"node": n, "cut": format!("{kind:?}"), "d": d})));
+                }
+            }
+            // (c) every acknowledged local transaction is there
+            let own_acked: Vec<&LVer> = acked.iter().filter(|l| l.actor == own).collect();
+            let (st, rows) = full.run(async |nd| (nd.sync_state().await, nd.crsql_changes().await));
+            if let Some(last) = own_acked.iter().max_by_key(|l| l.version) {
+                let head = st.heads.get(&own).map(|h| h.0).unwrap_or(0);
+                let lost_need = st.need.get(&own).map(|r| !r.is_empty()).unwrap_or(false);
+                if head < last.version || lost_need {
+                    self.viol.push(("C06:acknowledged-local-version-unknown-after-restart".into(), json!({"node": n, "cut": format!("{kind:?}"), "head": head, "acknowledged": own_acked.iter().map(|l| l.version).collect::<Vec<_>>()})));
+                }
+                let have: BTreeSet<_> = rows.iter().map(project).collect();
+                // cells of the latest acknowledged own version that no later own version rewrote
+                for c in &last.changes {
+                    if !have.contains(&project(c)) {
+                        self.viol.push(("C06:acknowledged-local-change-missing-after-restart".into(), json!({"node": n, "cut": format!("{kind:?}"), "change": format!("{c:?}")})));
+                        break;
+                    }
+                }
+            }
+            // nothing visible that was not covered at the cut (or acknowledged)
+            for r in &rows {
+                let a = ActorId::from_bytes(r.site_id);
+                if a == own {
+                    continue;
+                }
+                let ok = self.models[n].actors.get(&a).map(|m| m.held.contains(&r.db_version.0) || m.covered(r.db_version.0)).unwrap_or(false);
+                if !ok {
+                    self.viol.push(("C06:uncovered-version-visible-after-restart".into(), json!({"node": n, "cut": format!("{kind:?}"), "actor": a.to_string(), "version": r.db_version.0})));
+                    break;
+                }
+            }
+            if timing {
+                eprintln!("fork {kind:?}: oracles {:?}", t_f.elapsed());
+            }
+            // (d) the restarted node catches up from its peers and ends at the reference merge
+            let mut rounds = 0;
+            loop {
+                let mut moved = false;
+                for m in 0..self.nodes.len() {
+                    if m == n {
+                        continue;
+                    }
+                    let ours = full.run(async |nd| nd.sync_state().await);
+                    let theirs = self.nodes[m].run(async |nd| nd.sync_state().await);
+                    let needs = ours.compute_available_needs(&theirs);
+                    let mut req: Vec<(ActorId, Vec<SyncNeedV1>)> = needs.into_iter().collect();
+                    req.sort_by_key(|r| r.0);
+                    if req.is_empty() {
+                        continue;
+                    }
+                    let answers = match self.nodes[m].run(async |nd| nd.serve(req).await) {
+                        Ok(a) => a,
+                        Err(_) => vec![],
+                    };
+                    if answers.is_empty() {
+                        continue;
+                    }
+                    moved = true;
+                    let r = full.run(async |nd| {
+                        let t_d = Instant::now();
+                        let now = Instant::now();
+                        let r = klukai_agent::agent::process_multiple_changes(
+                            nd.agent.clone(),
+                            nd.bookie.clone(),
+                            answers.into_iter().map(|c| (c, klukai_types::broadcast::ChangeSource::Sync, now)).collect(),
+                            Duration::from_secs(60),
+                        )
+                        .await
+                        .map_err(|e| e.to_string());
+                        if std::env::var("VH_TIMING").is_ok() {
+                            eprintln!("  pmc {:?} alive {} base {}", t_d.elapsed(), alive_tasks(), baseline());
+                        }
+                        // the node's own loops apply and clear; wait until nothing complete is left buffered
+                        let start = Instant::now();
+                        loop {
+                            let views = nd.booked_view().await;
+                            // complete in memory and its buffered copies still on disk: the node's
+                            // apply / clear loops are not done with it (an applied partial may
+                            // linger in memory; that is not observable and not waited for)
+                            let mut complete: Vec<(ActorId, u64)> = vec![];
+                            for (a, bv) in views.iter() {
+                                for (v, seqs, last) in &bv.partials {
+                                    let s: BTreeSet<u64> = seqs.iter().flat_map(|(a, b)| *a..=*b).collect();
+                                    if (0..=*last).all(|q| s.contains(&q)) {
+                                        complete.push((*a, *v));
+                                    }
+                                }
+                            }
+                            let pending = nd
+                                .read(move |c| {
+                                    complete.iter().any(|(a, v)| {
+                                        c.query_row(
+                                            "SELECT EXISTS (SELECT 1 FROM __corro_buffered_changes WHERE site_id = ?1 AND db_version = ?2) OR EXISTS (SELECT 1 FROM __corro_seq_bookkeeping WHERE site_id = ?1 AND db_version = ?2)",
+                                            rusqlite::params![a, v],
+                                            |r| r.get::<_, bool>(0),
+                                        )
+                                        .unwrap()
+                                    })
+                                })
+                                .await;
+                            if !pending || start.elapsed() > Duration::from_secs(5) {
+                                if pending && std::env::var("VH_TIMING").is_ok() {
+                                    eprintln!("pending after 5s: {views:?}");
+                                }
+                                break;
+                            }
+                            tokio::time::sleep(Duration::from_millis(2)).await;
+                        }
+                        if std::env::var("VH_TIMING").is_ok() {
+                            eprintln!("  pending-wait {:?} alive {} base {}", t_d.elapsed(), alive_tasks(), baseline());
+                        }
+                        nd.quiesce().await;
+                        if std::env::var("VH_TIMING").is_ok() {
+                            eprintln!("  quiesced {:?}", t_d.elapsed());
+                        }
+                        r
+                    });
+                    if let Err(e) = r {
+                        self.viol.push(("ALL:process_multiple_changes-error".into(), json!({"node": n, "err": e, "at": "catch-up after restart"})));
+                    }
+                }
+                rounds += 1;
+                if !moved || rounds >= 6 {
+                    break;
+                }
+            }
+            if timing {
+                eprintln!("fork {kind:?}: catch-up {:?} rounds={rounds}", t_f.elapsed());
+            }
+            let reference = ref_for(w, &acked, refcache);
+            let alt = if kind == Cut::Inner && pre.ledger_len != self.ledger.len() { Some(ref_for(w, &self.ledger, refcache)) } else { None };
+            let (rows, clock, st) = full.run(async |nd| {
+                let rows = nd.table_rows("t").await;
+                let clock: Vec<_> = nd.crsql_changes().await.iter().map(|c| (c.table.to_string(), c.pk.clone(), c.cid.to_string(), c.col_version, c.cl)).collect::<BTreeSet<_>>().into_iter().collect();
+                (rows, clock, nd.sync_state().await)
+            });
+            // peers may not hold everything (they are mid-dissemination too): compare only when they do
+            let peers_complete = acked.iter().all(|l| {
+                l.actor == own || (0..self.nodes.len()).any(|m| m != n && self.models[m].actors.get(&l.actor).map(|x| x.held.contains(&l.version)).unwrap_or(false) || self.nodes[m].node().actor_id() == l.actor)
+            });
+            if peers_complete {
+                let matches = |r: &RefState| rows == r.rows && clock == r.clock;
+                if !(matches(&reference) || alt.as_ref().map(|a| matches(a)).unwrap_or(false)) {
+                    self.viol.push(("C06:restarted-node-does-not-reach-the-reference-merge".into(), json!({"node": n, "cut": format!("{kind:?}"), "rows": rows, "reference": reference.rows, "rounds": rounds})));
+                }
+                let residual = st.need.values().any(|v| !v.is_empty()) || st.partial_need.values().any(|v| !v.is_empty());
+                if residual {
+                    self.viol.push(("C06:residual-need-after-restart-and-catch-up".into(), json!({"node": n, "cut": format!("{kind:?}"), "need": format!("{:?}", st.need), "partial_need": format!("{:?}", st.partial_need)})));
+                }
+            }
+            drop(full);
+            let _ = std::fs::remove_dir_all(&dir);
+            if timing {
+                eprintln!("fork {kind:?}: done {:?}", t_f.elapsed());
+            }
+        }
+    }
+
     fn drain(&mut self, n: usize) {
         for _ in 0..64 {
             let a = self.nodes[n].run(async |nd| nd.apply_one().await);
@@ -784,6 +1127,38 @@ fn reference_merge(w: &World, ledger: &[LVer]) -> RefState {
     })
 }
 
+type RefCache = BTreeMap<u64, RefState>;
+
+fn ref_for(w: &World, ledger: &[LVer], cache: &mut RefCache) -> RefState {
+    let key = digest(&ledger.iter().map(|l| (l.origin, l.version, l.changes.iter().map(project).collect::<Vec<_>>())).collect::<Vec<_>>());
+    if let Some(r) = cache.get(&key) {
+        return r.clone();
+    }
+    let r = reference_merge(w, ledger);
+    cache.insert(key, r.clone());
+    r
+}
+
+/// What the harness knew right before the last event of a history.
+struct Pre {
+    models: Vec<NodeModel>,
+    ledger_len: usize,
+    commits: Vec<usize>,
+}
+
+#[derive(Clone, Copy, Debug, PartialEq, Eq)]
+enum Cut {
+    /// inside the step's first transaction (torn frame or whole non-commit frames): state before the step
+    Before,
+    /// after a commit of the step that is not its last one
+    Inner,
+    /// after the step's last commit: everything the step acknowledged is durable
+    Final,
+}
+
+static FORKED: std::sync::Mutex<BTreeMap<u64, u64>> = std::sync::Mutex::new(BTreeMap::new());
+static FORKS: [std::sync::atomic::AtomicU64; 4] = [const { std::sync::atomic::AtomicU64::new(0) }; 4];
+
 fn subranges(l: u64) -> Vec<(u64, u64)> {
     let mut v = vec![];
     for i in 0..=l {
@@ -794,10 +1169,14 @@ fn subranges(l: u64) -> Vec<(u64, u64)> {
     v
 }
 
-fn run_history(w: &World, cfg: &Cfg, script: &Script, hist: &[Ev], refcache: &mut Option<RefState>) -> Outcome<Ev> {
+fn run_history(w: &World, cfg: &Cfg, script: &Script, hist: &[Ev], refcache: &mut RefCache) -> Outcome<Ev> {
     let mut ex = Exec::start(w, cfg, script);
     let mut crashed_at_end = false;
+    let mut pre: Option<Pre> = None;
     for (k, ev) in hist.iter().enumerate() {
+        if cfg.crash_forks && k + 1 == hist.len() {
+            pre = Some(ex.pre());
+        }
         ex.apply_event(ev);
         crashed_at_end = k + 1 == hist.len() && matches!(ev, Ev::X { .. });
     }
@@ -810,6 +1189,26 @@ fn run_history(w: &World, cfg: &Cfg, script: &Script, hist: &[Ev], refcache: &mu
     let d = digest(&(ds.iter().map(|x| x.0).collect::<Vec<_>>(), &ex.models));
     let outcome = digest(&ds.iter().map(|x| x.1).collect::<Vec<_>>());
     ex.check_state(cfg, &tag);
+    // C06: every crash point of the last step, restarted through the real start_with_config
+    if let (Some(pre), Some(ev)) = (pre.as_ref(), hist.last()) {
+        if !crashed_at_end {
+            // the image after the step's last commit is a function of the state reached: judge it
+            // once per distinct state (and again whenever the same history is re-executed)
+            let first = {
+                let mut g = FORKED.lock().unwrap();
+                let hk = digest(&hist);
+                let d = digest(&(cfg.family, d));
+                match g.get(&d) {
+                    Some(h0) => *h0 == hk,
+                    None => {
+                        g.insert(d, hk);
+                        true
+                    }
+                }
+            };
+            ex.crash_forks(w, cfg, pre, ev, refcache, first);
+        }
+    }
     // C03 differential twin: the chunked path must give the same data as the unchunked one
     if cfg.props.contains("C03") && !cfg.twin_off {
         if let (Some(Ev::A { .. }), Some((n, x))) = (hist.last(), ex.last_applied) {
@@ -897,6 +1296,17 @@ fn run_history(w: &World, cfg: &Cfg, script: &Script, hist: &[Ev], refcache: &mu
             enabled.push(Ev::X { n });
         }
     }
+    if cfg.crash_forks {
+        let writes = hist.iter().filter(|e| matches!(e, Ev::W { .. })).count();
+        if writes < cfg.max_local_writes {
+            for &n in &cfg.receivers {
+                enabled.push(Ev::W { n, tx: LTx::Ins });
+                if !hist.iter().any(|e| matches!(e, Ev::W { tx: LTx::Fail, .. })) {
+                    enabled.push(Ev::W { n, tx: LTx::Fail });
+                }
+            }
+        }
+    }
     if cfg.sync_events {
         for n in 0..nn {
             for m in 0..nn {
@@ -927,10 +1337,7 @@ fn run_history(w: &World, cfg: &Cfg, script: &Script, hist: &[Ev], refcache: &mu
     let nontrivial = ex.models.iter().any(|m| m.actors.values().any(|a| a.recv.keys().any(|v| !a.held.contains(v))))
         || hist.iter().any(|e| matches!(e, Ev::X { .. }));
     if cfg.closure {
-        if refcache.is_none() {
-            *refcache = Some(reference_merge(w, &ex.ledger));
-        }
-        let r = refcache.clone().unwrap();
+        let r = ref_for(w, &ex.ledger, refcache);
         ex.closure(cfg, &r);
     }
     let mut violations: Vec<(String, Value)> = vec![];
@@ -1002,13 +1409,13 @@ fn cfg_for(prop: &'static str, tier: Tier, nodes: usize) -> Cfg {
     let receivers: Vec<usize> = (1..nodes).collect();
     match prop {
         "C03" => Cfg { nodes, props, closure: true, allow_crash: false, redeliver_held: tier == Tier::Thorough, batches: true, lossy: false,
-                       sync_events: nodes > 2, unbatched_sync: false, receivers: vec![1], server_oracle: false, twin_off: false },
+                       sync_events: nodes > 2, unbatched_sync: false, receivers: vec![1], server_oracle: false, twin_off: false, crash_forks: false, torn_cuts: false, max_local_writes: 0, family: 0 },
         "C05" => Cfg { nodes, props, closure: false, allow_crash: false, redeliver_held: false, batches: false, lossy: false,
-                       sync_events: true, unbatched_sync: false, receivers: vec![1], server_oracle: true, twin_off: false },
+                       sync_events: true, unbatched_sync: false, receivers: vec![1], server_oracle: true, twin_off: false, crash_forks: false, torn_cuts: false, max_local_writes: 0, family: 0 },
         "C01" => Cfg { nodes, props, closure: true, allow_crash: false, redeliver_held: false, batches: tier == Tier::Thorough, lossy: true,
-                       sync_events: true, unbatched_sync: tier == Tier::Thorough, receivers: if nodes == 2 { vec![0, 1] } else { receivers }, server_oracle: false, twin_off: false },
+                       sync_events: true, unbatched_sync: tier == Tier::Thorough, receivers: if nodes == 2 { vec![0, 1] } else { receivers }, server_oracle: false, twin_off: false, crash_forks: false, torn_cuts: false, max_local_writes: 0, family: 0 },
         "C06" => Cfg { nodes, props, closure: true, allow_crash: true, redeliver_held: false, batches: false, lossy: false,
-                       sync_events: false, unbatched_sync: false, receivers: vec![1], server_oracle: false, twin_off: false },
+                       sync_events: false, unbatched_sync: false, receivers: vec![1], server_oracle: false, twin_off: false, crash_forks: true, torn_cuts: tier == Tier::Thorough, max_local_writes: tier.pick(1, 2) as usize, family: 0 },
         _ => machinery_error("repl: unknown property"),
     }
 }
@@ -1033,7 +1440,7 @@ fn main() {
         let nodes = r["details"]["nodes"].as_u64().unwrap_or(3) as usize;
         let mut cfg = cfg_for(prop, Tier::Thorough, nodes);
         cfg.server_oracle = prop == "C05";
-        let mut rc = None;
+        let mut rc: RefCache = RefCache::new();
         // replay every prefix so the step that first violates is visible
         let mut any = false;
         for k in 0..=hist.len() {
@@ -1048,26 +1455,56 @@ fn main() {
 
     let t0 = Instant::now();
     let fams = scripts_for(prop, cli.tier);
-    let per_script_execs: u64 = cli.tier.pick(2400, 60_000) / fams.len() as u64;
-    let per_script_secs: u64 = cli.tier.pick(50, 1500) / fams.len() as u64;
+    // families run in parallel threads (each execution owns its nodes and runtimes), so each gets
+    // the whole time budget; the machine-wide execution ceiling still applies
+    let par = fams.len().min(6) as u64;
+    let per_script_execs: u64 = cli.tier.pick(2400, 60_000) * par / fams.len() as u64;
+    let per_script_secs: u64 = cli.tier.pick(50, 1500) * par / fams.len() as u64;
     let mut fam_stats = vec![];
     let mut all_exhaustive = true;
-    for (name, script, nodes) in fams {
-        let cfg = cfg_for(prop, cli.tier, nodes);
-        let mut rc: Option<RefState> = None;
-        let lim = Limits {
-            max_depth: cli.tier.pick(8, 10),
-            max_execs: per_script_execs,
-            deadline: Some(Instant::now() + Duration::from_secs(per_script_secs)),
-        };
-        let script2 = script.clone();
-        let stats = replay_bfs(&rep, vec![vec![]], &lim, |h| {
-            let mut o = run_history(&w, &cfg, &script2, h, &mut rc);
-            for v in o.violations.iter_mut() {
-                v.1 = json!({"script": script2, "script_name": name, "nodes": nodes, "d": v.1});
-            }
-            o
-        });
+    let tier = cli.tier;
+    let results: Vec<(&'static str, Script, usize, BfsStats)> = std::thread::scope(|sc| {
+        let mut hs = vec![];
+        let sem = std::sync::Arc::new((std::sync::Mutex::new(par), std::sync::Condvar::new()));
+        for (fi, (name, script, nodes)) in fams.into_iter().enumerate() {
+            let rep = &rep;
+            let w = &w;
+            let sem = sem.clone();
+            hs.push(sc.spawn(move || {
+                {
+                    let mut g = sem.0.lock().unwrap();
+                    while *g == 0 {
+                        g = sem.1.wait(g).unwrap();
+                    }
+                    *g -= 1;
+                }
+                let mut cfg = cfg_for(prop, tier, nodes);
+                cfg.family = fi as u64;
+                let mut rc: RefCache = RefCache::new();
+                let lim = Limits {
+                    max_depth: tier.pick(8, 10),
+                    max_execs: per_script_execs,
+                    deadline: Some(Instant::now() + Duration::from_secs(per_script_secs)),
+                };
+                let script2 = script.clone();
+                let stats = replay_bfs(rep, vec![vec![]], &lim, |h| {
+                    let mut o = run_history(w, &cfg, &script2, h, &mut rc);
+                    for v in o.violations.iter_mut() {
+                        v.1 = json!({"script": script2, "script_name": name, "nodes": nodes, "d": v.1});
+                    }
+                    o
+                });
+                {
+                    let mut g = sem.0.lock().unwrap();
+                    *g += 1;
+                    sem.1.notify_one();
+                }
+                (name, script, nodes, stats)
+            }));
+        }
+        hs.into_iter().map(|h| h.join().unwrap_or_else(|_| machinery_error("repl: a family thread panicked"))).collect()
+    });
+    for (name, script, nodes, stats) in results {
         record_stats(&rep, &format!("{name}_"), &stats);
         if stats.capped.is_some() {
             all_exhaustive = false;
@@ -1086,6 +1523,14 @@ fn main() {
         rep.set("server_version_cases", json!({"needed_must_be_silent": g(0), "live_rows_must_tile": g(1), "buffered_must_send_stored": g(2), "held_empty_must_declare_empty": g(3)}));
         if g(1) == 0 || g(2) == 0 || g(3) == 0 || g(0) == 0 {
             rep.set("vacuity_warning", "some server case class was never reached");
+        }
+    }
+    if prop == "C06" {
+        let g = |i: usize| FORKS[i].load(std::sync::atomic::Ordering::Relaxed);
+        rep.set("crash_forks", json!({"inside_first_transaction": g(Cut::Before as usize), "after_inner_commit": g(Cut::Inner as usize), "after_last_commit": g(Cut::Final as usize),
+            "restart": "real start_with_config on db + WAL prefix"}));
+        if g(Cut::Final as usize) == 0 {
+            machinery_error("C06: no crash fork was evaluated");
         }
     }
     rep.set("exhaustive", all_exhaustive);
